@@ -1,6 +1,7 @@
 /- the codec models instantiated with the facts regenerated from /repo (Gen/CodecFacts.lean) -/
 import IpcHub.Model.H264Sps
 import IpcHub.Model.Asc
+import IpcHub.Model.Hevc
 import IpcHub.Gen.CodecFacts
 namespace IpcHub.H264
 
@@ -32,3 +33,20 @@ def genCfg : Cfg :=
     psGuardFFmpeg := IpcHub.Gen.aacPsGuardFFmpeg }
 
 end IpcHub.Asc
+
+namespace IpcHub.Hevc
+
+def genCfg : Cfg :=
+  { seFromUe := IpcHub.Gen.readSeFromUe
+    nalVps := IpcHub.Gen.hevcNalVps
+    nalSps := IpcHub.Gen.hevcNalSps
+    maxSubLayers := IpcHub.Gen.hevcMaxSubLayers
+    maxRefs := IpcHub.Gen.hevcMaxRefs
+    maxDpbSize := IpcHub.Gen.hevcMaxDpbSize
+    maxLongTermRefPics := IpcHub.Gen.hevcMaxLongTermRefPics
+    maxCpbCnt := IpcHub.Gen.hevcMaxCpbCnt
+    maxLayers := IpcHub.Gen.hevcMaxLayers
+    spsOrderingStd := IpcHub.Gen.hevcSpsOrderingStd
+    rpsInterStd := IpcHub.Gen.hevcRpsInterStd }
+
+end IpcHub.Hevc
